@@ -45,6 +45,9 @@ PLAN = {
              title="exceptions"),
  "C13": dict(machines=["flat", "ortho", "hier2", "hier3", "compl", "block"], profile=dict(MIXED, throws=0.1), mc=MC_PLAIN, invariants=[],
              title="back-end / policy / strategy equivalence"),
+ "C15": dict(machines=["defer", "pseudo", "histA", "compl"], profile=dict(MIXED, throws=0.05, copy=0.25, ninst=3), ninst=3,
+             mc=dict(maxcalls=3, budget=0, apis=("start", "pe", "enq", "drain", "copy", "assign"), dirops=(), direvs=(), ninst=2), invariants=["P_C15"],
+             title="copies and moves"),
  "C17": dict(machines=["ortho", "hier3", "block"], profile=dict(PLAIN, restart=0.05), mc=MC_PLAIN, invariants=["P_C17"],
              title="flags"),
  "C18": dict(machines=["kleene"], profile=dict(PLAIN, subs=0.2, enq=0.1, drain=0.1), mc=MC_PLAIN5, invariants=["P_C01", "P_C18"],
